@@ -199,7 +199,13 @@ inline bool record(const std::string &prop, const std::string &body, const std::
         if (v.inconclusive) s.inconclusive++;
         for (auto &c : v.classes) s.classes[c]++;
         for (auto &c : v.excluded) s.excluded[c]++;
-        if (known) s.excluded["known:" + v.sig]++;
+        if (known) {
+            // keep the first cases matched by each known-finding signature: the driver needs one as the reproduction
+            // when a signature fires far more often than the recorded rate of its finding
+            uint64_t &k = s.excluded["known:" + v.sig];
+            if (k < 2 && !s.dir.empty()) { std::string fn = v.sig; for (char &ch : fn) if (!isalnum((unsigned char)ch) && ch != '-') ch = '_'; write_file(s.dir + "/known-" + fn + "-" + std::to_string(k) + ".case", text); }
+            k++;
+        }
         if (v.nontrivial && !v.aborted) {
             // samples: one each from about 30%, 60% and 90% of the way through the run
             bool fresh = s.nontrivial.insert(fnv(text)).second;
